@@ -21,6 +21,9 @@ pub struct Case {
     pub prev: PrevGen,
     pub entry: u8,
     pub j6: f64,
+    /// call history: the same stack with every coupling's scaling replaced by this value is evaluated on the same joints / pose first
+    #[serde(default)]
+    pub earlier_scaling: Option<f64>,
 }
 
 fn axialize(layers: &[Layer]) -> Vec<Layer> {
@@ -49,6 +52,14 @@ fn check_case(c: &Case, ctx: &mut Ctx, enumerated: bool) -> Res {
 
     // forward = inner stack at the de-coupled joints
     let tcp = model_forward(r, &layers, &c.j);
+    if let Some(sc) = c.earlier_scaling {
+        let l2: Vec<Layer> = layers.iter().map(|l| if let Layer::Para { driven, coupled, .. } = l { Layer::Para { driven: *driven, coupled: *coupled, scaling: sc } } else { *l }).collect();
+        let k2 = build_stack(Arc::new(opw(r)), &l2);
+        let _ = no_panic(|| k2.forward(&c.j)).map_err(|m| viol!("no panic", "forward (earlier stack): {}", m))?;
+        let _ = no_panic(|| k2.forward_with_joint_poses(&c.j)).map_err(|m| viol!("no panic", "forward_with_joint_poses (earlier stack): {}", m))?;
+        let _ = call_entry(k2.as_ref(), entry, &to_na(&tcp), &c.prev.resolve(Some(c.j)), c.j6).map_err(|m| viol!("no panic", "{} (earlier stack): {}", what, m))?;
+        ctx.class("history: the same joints / pose went through a stack with another scaling first");
+    }
     let f = no_panic(|| kin.forward(&c.j)).map_err(|m| viol!("no panic", "forward: {}", m))?;
     let f = from_na(&f).ok_or_else(|| viol!("forward finite", "{:?}", f))?;
     let dp = dist(&f.p, &tcp.p);
@@ -133,7 +144,7 @@ impl Property for C16 {
                     for entry in 0..4u8 {
                         let robot = cat[(n + si) % cat.len()].1;
                         n += 1;
-                        let case = Case { robot, layers: vec![Layer::Para { driven, coupled, scaling: *scaling }], j, prev: PrevGen::Source, entry, j6: 0.25 };
+                        let case = Case { robot, layers: vec![Layer::Para { driven, coupled, scaling: *scaling }], j, prev: PrevGen::Source, entry, j6: 0.25, earlier_scaling: None };
                         ctx.evaluations += 1;
                         if let Err(v) = check_case(&case, ctx, true) {
                             return Err((case, v));
@@ -153,8 +164,8 @@ impl Property for C16 {
             3 => (para_strategy(), tbf_layer(1.0), any::<bool>()).prop_map(|(p, t, o)| if o { vec![p, t] } else { vec![t, p] }),
             2 => (para_strategy(), tbf_layer(1.0), para_strategy()).prop_map(|(a, t, b)| vec![a, t, b]),
         ];
-        (prop_oneof![3 => robot_sane(DofChoice::Six), 1 => robot_negative(DofChoice::Six)], layers, joints_mixed(), prev_2pi(), 0u8..4, -3.0..3.0f64)
-            .prop_map(|(robot, layers, j, prev, entry, j6)| Case { robot, layers, j, prev, entry, j6 })
+        (prop_oneof![3 => robot_sane(DofChoice::Six), 1 => robot_negative(DofChoice::Six)], layers, joints_mixed(), prev_2pi(), 0u8..4, -3.0..3.0f64, prop_oneof![3 => Just(None), 1 => (-2.0..2.0f64).prop_map(Some)])
+            .prop_map(|(robot, layers, j, prev, entry, j6, earlier_scaling)| Case { robot, layers, j, prev, entry, j6, earlier_scaling })
             .boxed()
     }
     fn check(&self, c: &Case, ctx: &mut Ctx) -> Res {
